@@ -107,6 +107,12 @@ Theorem C13_wallace_fuel_sufficient : forall cols rw,
 Proof. exact wallace_fuel_sufficient. Qed.
 Print Assumptions C13_wallace_fuel_sufficient.
 
+(* hence (with _sparse_adder total since fix be08f74) wallace_reducer always returns *)
+Theorem C13_wallace_reducer_returns : forall add cols rw,
+  (length cols <= rw)%nat -> exists r, wallace_reducer add cols rw = Some r.
+Proof. exact wallace_reducer_returns. Qed.
+Print Assumptions C13_wallace_reducer_returns.
+
 (* dada_reducer (schedule 2,3,4,6,9,...; every column ends with height <= 2):
    column sum mod 2^result_bitwidth whenever it returns *)
 Theorem C13_dada_exact : forall add cols rw r,
